@@ -80,6 +80,25 @@ def definite_violations(ast):
     return out
 
 
+def accepted_violations(ast):
+    """rules whose violation makes acceptance wrong, whatever else is reported first:
+    checked only against descriptions the analyzer ACCEPTS"""
+    out = set()
+    byid = {d["id"]: d for d in ast["declarations"] if "id" in d}
+    for d in ast["declarations"]:
+        if d["kind"] not in ("packet_declaration", "struct_declaration"):
+            continue
+        # E22: a field constrained twice, in one list or along the inheritance chain
+        seen, cur, hops = [], d, 0
+        while cur is not None and hops < 64:
+            seen += [c["id"] for c in cur.get("constraints", []) or []]
+            cur = byid.get(cur.get("parent_id")) if cur.get("parent_id") else None
+            hops += 1
+        if len(seen) != len(set(seen)):
+            out.add("E22")
+    return out
+
+
 def reported(rule, codes):
     """the rule's code is among the diagnostics, or an earlier pass stopped the analysis"""
     alts = rule.split("|")
@@ -129,6 +148,10 @@ def run(tier, seed):
                         known_hits.setdefault(f["id"], f["what"])
                     else:
                         violations.append({"kind": "rule-violation-not-reported", "rule": rule, **case, "observed": io[:2]})
+        if io[0] == "ok":
+            for rule in sorted(accepted_violations(pdlast.strip_loc(parsed[i][1]["ast"]))):
+                counts["rule:" + rule] += 1
+                violations.append({"kind": "ill-formed-description-accepted", "rule": rule, **case, "observed": io[:1]})
         # (2) diagnostics are renderable and point inside the file
         if st == "err" and isinstance(p, dict) and p.get("stage") == "analyze":
             src_len = p.get("source_len", len(texts[i].encode()))
